@@ -4,9 +4,190 @@ RULE = ("random worlds x histories (see C05) with runs cut at the k-th operation
         "file-backed stores: a 3-call plan with Json/Text/Pickle/Binary stores, os._exit before/after EVERY file operation of the run (fresh state and after a source update), then the repairing run")
 TRUSTED_BASE = ["harness/cache_corr.py worlds and fault injection", "harness/c11_common.Injector (file-operation counting, os._exit in a forked child)"]
 def run(ctx):
+    failing_sibling_write_in_flight(ctx)
+    mounted_streaming_write_fails(ctx)
     camp = cache_corr.Campaign(ctx)
     cache_corr.history_campaign(ctx, camp, ctx.n(60, 1200), ctx.n(6, 8))
     camp.eval_model()
     camp.file({"C08"})
     import c08_files
     c08_files.run_files(ctx)      # file-backed stores: process death at every file operation, then the repairing run
+
+
+def _clock():
+    import datetime as dt
+    import itertools
+    c = itertools.count(1)
+    return lambda: dt.datetime(2020, 1, 1) + dt.timedelta(seconds=next(c))
+
+
+def failing_sibling_write_in_flight(ctx):
+    """The run is cut short by a call failing (error limit exceeded) while a sibling's store write is still executing on another
+    worker.  When run raises nothing of that run may still be in flight: a source update made right afterwards is newer than
+    everything the cut run wrote, and the repairing run leaves from-scratch values - also after waiting for stragglers."""
+    import threading
+    import time
+    uj = core.use_repo()
+    for workers, max_errors, duration in ((2, 0, 0.5), (4, 0, 1.3), (3, 1, 0.5)):
+        now = _clock()
+        writing = threading.Event()
+
+        class Mem(uj.ValueStore):
+            def __init__(self, v=None, slow=False):
+                self.v, self.t, self.slow, self.in_flight, self.writes = v, (now() if v is not None else None), slow, False, []
+
+            def read(self):
+                return self.v
+
+            def write(self, v):
+                self.in_flight = True
+                if self.slow:
+                    writing.set()
+                    time.sleep(duration)
+                self.v, self.t = v, now()
+                self.writes.append(v)
+                self.in_flight = False
+
+            def get_modified_time(self):
+                return self.t
+        src, a_st, b_st = Mem(10), Mem(slow=True), Mem()
+        plan, reg = uj.Plan(), uj.Registry()
+        s_ = reg.source(plan, src)
+        a = plan.call(lambda v: v * 2, s_)
+        reg.add(a, a_st)
+        b = plan.call(lambda v: v + 1, a)
+        reg.add(b, b_st)
+        fail = [True]
+
+        def flaky(v):
+            writing.wait(5)          # fails while a's store write is in flight
+            time.sleep(0.05)
+            if fail[0]:
+                raise RuntimeError("flaky")
+            return v
+        f1 = plan.call(flaky, s_)
+        f2 = plan.call(flaky, s_)
+        try:
+            core.call_watched(lambda: uj.run(plan, registry=reg, output=[b, f1, f2], max_workers=workers, max_errors=max_errors, progress=None), timeout=30)
+            first = "returned"
+        except uj.CallError:
+            first = "callerror"
+        except core.Hang:
+            first = "hang"
+        still = a_st.in_flight or b_st.in_flight
+        src.v, src.t = 50, now()            # the source is updated right after the cut run
+        fail[0] = False
+        a_st.slow = False
+        try:
+            got = core.call_watched(lambda: uj.run(plan, registry=reg, output=b, max_workers=1, progress=None), timeout=30)
+        except BaseException as e:      # noqa
+            got = "raised %s" % type(e).__name__
+        time.sleep(duration + 0.3)          # anything the cut run still had in flight has landed by now
+        try:
+            again = core.call_watched(lambda: uj.run(plan, registry=reg, output=b, max_workers=1, progress=None), timeout=30)
+        except BaseException as e:      # noqa
+            again = "raised %s" % type(e).__name__
+        ctx.case(("c08-failing-sibling-write-in-flight", workers, max_errors, duration))
+        if first != "callerror" or still or got != 101 or again != 101 or a_st.v != 100 or b_st.v != 101:
+            ctx.fail("cut-by-failure:write-in-flight", "a call failed while a sibling's store write (lasting %.1f s) was in flight (max_workers=%d, max_errors=%r): the run %s; "
+                     "a write of it was still in flight when it ended: %s; after a source update the repairing run returned %r, a later run %r, stores hold %r / %r "
+                     "(from scratch: 101, 101, 100 / 101); values written to the first store in order: %r"
+                     % (duration, workers, max_errors, first, still, got, again, a_st.v, b_st.v, a_st.writes),
+                     {"max_workers": workers, "max_errors": max_errors, "write_lasts_seconds": duration})
+
+
+def mounted_streaming_write_fails(ctx):
+    """A MountedStore over a store that streams rows straight into the local path and fails part-way: the failed write must not
+    publish the partial file, so the next run does not take it for an up-to-date value."""
+    import json
+    uj = core.use_repo()
+    from uberjob.stores._mounted_store import MountedStore
+    for fail_after in (0, 1, 3, 5):
+        for pre_existing in (False, True):
+            now = _clock()
+
+            class Rows(uj.ValueStore):
+                fail = True
+
+                def __init__(self, path):
+                    self.path = path
+
+                def read(self):
+                    with open(self.path) as f:
+                        return [json.loads(line) for line in f]
+
+                def write(self, rows):
+                    with open(self.path, "w") as f:
+                        for i, r in enumerate(rows):
+                            if Rows.fail and i == fail_after:
+                                raise OSError("disk full after %d rows" % i)
+                            f.write(json.dumps(r) + "\n")
+                            f.flush()
+
+                def get_modified_time(self):
+                    return None
+
+            class Remote(MountedStore):
+                def __init__(self):
+                    super().__init__(Rows)
+                    self.blob, self.t, self.pushes = None, None, 0
+
+                def copy_from_local(self, local_path):
+                    with open(local_path, "rb") as f:
+                        self.blob = f.read()
+                    self.t = now()
+                    self.pushes += 1
+
+                def copy_to_local(self, local_path):
+                    with open(local_path, "wb") as f:
+                        f.write(self.blob)
+
+                def get_modified_time(self):
+                    return self.t
+
+            class Mem(uj.ValueStore):
+                def __init__(self, v=None):
+                    self.v, self.t = v, (now() if v is not None else None)
+
+                def read(self):
+                    return self.v
+
+                def write(self, v):
+                    self.v, self.t = v, now()
+
+                def get_modified_time(self):
+                    return self.t
+            remote, total_st = Remote(), Mem()
+            src = Mem(6)
+            plan, reg = uj.Plan(), uj.Registry()
+            s_ = reg.source(plan, src)
+            rows = plan.call(lambda n: list(range(1, n + 1)), s_)
+            reg.add(rows, remote)
+            total = plan.call(sum, rows)
+            reg.add(total, total_st)
+            Rows.fail = False
+            if pre_existing:
+                src.v = 3
+                uj.run(plan, registry=reg, output=total, progress=None)      # an older complete value is in place
+                src.v, src.t = 6, now()
+            before = (remote.blob, remote.t)
+            Rows.fail = True
+            try:
+                uj.run(plan, registry=reg, output=total, progress=None, max_workers=1)
+                first = "returned"
+            except uj.CallError:
+                first = "callerror"
+            after_cut = (remote.blob, remote.t)
+            Rows.fail = False
+            try:
+                got = uj.run(plan, registry=reg, output=total, progress=None, max_workers=1)
+            except BaseException as e:      # noqa
+                got = "raised %s" % type(e).__name__
+            ctx.case(("c08-mounted-streaming-write-fails", fail_after, pre_existing))
+            stored = None if remote.blob is None else [json.loads(x) for x in remote.blob.decode().splitlines()]
+            if first != "callerror" or after_cut != before or got != 21 or stored != [1, 2, 3, 4, 5, 6] or total_st.v != 21:
+                ctx.fail("cut-by-failure:mounted-partial-published", "a MountedStore whose underlying write failed after %d of 6 rows (%s): the run %s; the mounted location "
+                         "%s by the failed write; the next run returned %r (from scratch: 21) and the location holds %r"
+                         % (fail_after, "an older complete value was in place" if pre_existing else "nothing stored before", first,
+                            "was changed" if after_cut != before else "was left alone", got, stored),
+                         {"fail_after_rows": fail_after, "pre_existing": pre_existing})
